@@ -171,7 +171,8 @@ GrantDelete(p, f) ==
 
 \* ---- commanded: environment --------------------------------------------------------
 Cancel(p) ==
-    /\ kind[p] = "ctx" /\ pc[p] \notin {"idle", "holding", "atDelete"} /\ ~cancelled[p]
+    \* (TryLock takes a context too: it is handed to the store's Create, which refuses a context that is done)
+    /\ kind[p] \in {"ctx", "try"} /\ pc[p] \notin {"idle", "holding", "atDelete"} /\ ~cancelled[p]
     /\ cancels < MaxCancels
     /\ cancelled' = [cancelled EXCEPT ![p] = TRUE] /\ cancels' = cancels + 1
     /\ Cmd([op |-> "cancel", p |-> p])
